@@ -33,7 +33,13 @@ def run(ctx: Ctx) -> None:
     message_reschedule(ctx)
     anchor(ctx, info)
     first_run(ctx)
-    race(ctx, "R-C06-ONE")  # a run that completed must not also be returned to the queue: that would leave two successors
+    race(ctx, "R-C06-ONE")
+    from .C02 import catch
+    from .C03 import shutdown
+
+    with ctx.as_rule("R-C06-ONE"):
+        catch(ctx, "R-C06-ONE")  # an iteration always ends in an outcome (never escapes process()), so the reschedule branch is always reached: never no successor
+        shutdown(ctx, "R-C06-ONE")  # a finished iteration's message is not also handed back by finish(): never two successors  # a run that completed must not also be returned to the queue: that would leave two successors
     from .delay import whole_duration_rule
 
     from .C05 import rounding
